@@ -29,6 +29,9 @@ DEFAULT = {
     "p_reduction_aux": 0.2,   # an auxiliary function written as jnp.sum(jnp.array([...])), used by utility only
     "p_lower_bound": 0.1,      # a constraint kmin <= c cutting off the LOW end of the consumption grid (ties with excluded points)
     "p_undefined_outside": 0.12,  # utility is NaN / +inf wherever a (parameter-free) filter or constraint fails: never to be looked at
+    "p_two_params": 0.35,      # utility has a second own parameter g (signature order of parameters and variables is shuffled)
+    "p_next_in_constraint": 0.15,  # a constraint on the NEXT value of w: nw_constraint(next_w, kn) = kn <= next_w
+    "p_a_tie": 0.12,           # the restricted choice a enters no payoff: exact ties between its labels wherever transitions do not separate them
     "p_near_tie": 0.15,        # large utility level + tiny dyadic premia on the discrete choices: near-ties (relative 1e-5)
     "p_dead_label": 0.0,       # (models without continuous state) the last label of h admits no choice: value -inf, reachable
     "p_state_only_filter": 0.15,  # the filter restricts states only: no restricted choice, every discrete choice unrestricted
@@ -286,6 +289,9 @@ def _rand_model_once(rng, P):  # noqa: C901, PLR0912, PLR0915
         if has_b and has("p_unused_choice"):
             drop.add("b")
             feat["b_not_in_utility"] = True
+        if has_r and has_a and has("p_a_tie"):
+            drop.add("a")
+            feat["a_exact_ties"] = True
         near_tie = not P["inexact"] and not log_w and (has_a or has_b) and has("p_near_tie")
         if near_tie:
             # the discrete choices enter utility only through tiny premia (below): in the last period all their
@@ -337,10 +343,17 @@ def _rand_model_once(rng, P):  # noqa: C901, PLR0912, PLR0915
         terms.append(var("bonus"))
         uargs.append("bonus")
         feat["param_only_aux"] = True
+    two_params = has("p_two_params")
+    if two_params:
+        terms.append(var("g"))
+        uargs.append("g")
+        feat["two_params"] = has_w
     if not terms:
         terms.append(const(0))
     funcs.append(mkfunc("utility", "utility", _shuf(rng, list(dict.fromkeys(uargs)), P), add(*terms)))
     params["utility"] = {"k": q(rng.randint(0, 2))} if has_w else {}
+    if two_params:
+        params["utility"]["g"] = q(rng.choice([F(1, 2), 3, -1, F(5, 2)]))
 
     # ------------------------------------------------------------------ auxiliary functions
     inc_src = "a" if has_a else ("b" if has_b else None)
@@ -411,6 +424,12 @@ def _rand_model_once(rng, P):  # noqa: C901, PLR0912, PLR0915
                 funcs.append(mkfunc("lb_constraint", "constraint", _shuf(rng, ["c", "kmin"], P), ["le", var("kmin"), var("c")]))
                 params["lb_constraint"] = {"kmin": q(rng.choice([F(1, 2), F(3, 2)]))}
                 feat["lower_bound"] = True
+            if has("p_next_in_constraint") and not P["inexact"] and not log_w:
+                # a model function may take the output of a transition function as an argument (a borrowing limit on next
+                # period's wealth): next_w is then a function argument, not a parameter
+                funcs.append(mkfunc("nw_constraint", "constraint", _shuf(rng, ["next_w", "kn"], P), ["le", var("kn"), var("next_w")]))
+                params["nw_constraint"] = {"kn": q(rng.choice([0, F(1, 2), F(-1, 2)]))}
+                feat["next_in_constraint"] = True
             if has("p_infeasible_last"):
                 funcs.append(mkfunc("pos_constraint", "constraint", ["c"], ["le", const(F(1, 2)), var("c")]))
                 params["pos_constraint"] = {}
